@@ -15,7 +15,10 @@ ID = "C18"
 BUDGET = {"quick": 100, "thorough": 600}
 
 
-def make_prog(n, es, with_param: bool, none_node=None) -> GProg:
+def make_prog(n, es, with_param: bool, none_node=None, kinds=None) -> GProg:
+    if kinds is not None:
+        from ..spaces import kinds_rotating
+        es = kinds_rotating(es, kinds)  # keyword, indexed and activation-flag dependencies (every flag is truthy)
     p = prog_of(dict(n=n, es=es, res=("tm" * n)[:n], mc=2, retnone=[none_node] if none_node is not None else []))
     if not with_param:
         return p
@@ -47,6 +50,12 @@ def cases(tier: str):
                             if n <= 3 and not other_input and rk in ("same", "whole"):
                                 for nn in range(n):  # a node whose (legal) result is None
                                     yield dict(n=n, es=es, with_param=with_param, caching=[ck, ct], restart=[rk, rt], other_input=False, none_node=nn)
+                if 2 <= n <= 3 and es:
+                    # dependencies that are keyword arguments, indexed results and activation flags
+                    for kinds in (1, 4, 5):
+                        for ck, ct in cachings:
+                            for rk, rt in (("same", None), ("whole", None)):
+                                yield dict(n=n, es=es, with_param=with_param, caching=[ck, ct], restart=[rk, rt], other_input=False, kinds=kinds)
                 if n <= 3:
                     # one DAG instance, one path: cache, restart, cache again (other argument / other selection), restart again
                     for ck, ct in cachings[: n + 1]:
@@ -260,7 +269,7 @@ def run_one(acc, c):
         return run_default_arg(acc, c)
     if c.get("special"):
         return run_special(acc, c)
-    p = make_prog(c["n"], [tuple(e) for e in c["es"]], c["with_param"], c.get("none_node"))
+    p = make_prog(c["n"], [tuple(e) for e in c["es"]], c["with_param"], c.get("none_node"), c.get("kinds"))
     ids = p.ids()
     src = p.source()
     acc.cases += 1
